@@ -1,7 +1,7 @@
 """C03 Returned L and U are structurally well-formed  —  wiring of L/U to the filled arrays, count/fix-up order, R9 + twins.  (R5a capacity clause: see C19/C07.)"""
 from ..facts import Program
 from ..run import Check, AnalysisBroken
-from ..rules import factor_tail, r9_sibling, r5_grow, r11_kinds
+from ..rules import factor_tail, r9_sibling, r5_grow, r11_kinds, misc
 from . import _drv
 
 R9_UNITS = ['gstrf.c', 'column_dfs.c', 'snode_dfs.c', 'copy_to_ucol.c', 'pruneL.c', 'panel_dfs.c', 'util.c', 'memory.c']
@@ -24,6 +24,9 @@ def run(tier):
         prog = Program.load(which=('SRC',), cfg=cfgname)
         chk.clause('C03.D1', 'L/U wired to the filled arrays; count and fix-up before the wrap')
         r11_kinds.run(chk, 'C03.kinds', prog, cfgname, floor=1900)
+        chk.clause('C03.droprow', 'ilu_?drop_row moves values and subscripts of a row together')
+        for p in _drv.PRECS:
+            misc.drop_row_alignment(chk, 'C03.droprow', prog, p, cfgname)
         n = 0
         for p in _drv.PRECS:
             n += factor_tail.run(chk, 'C03.D1', prog, p, cfgname)
